@@ -205,6 +205,11 @@ def run_case(case):
         for _ in range(case["prewarm"]):
             standard_gates.X(0.3, 1e-3, 1e-4, 5e-5)
             standard_gates.SX(0.1, 1e-3, 1e-4, 5e-5)
+            # ... every sampler of the gate set, the idle / read-out ones and a two-qubit gate included
+            standard_gates.bitflip(1e-6, 0.02)
+            standard_gates.relaxation(7e-8, 1e-4, 5e-5)
+            standard_gates.depolarizing(7e-8, 1e-3)
+            standard_gates.CNOT(0.1, 0.2, 4e-7, 0.01, 1e-3, 1e-3, 1e-4, 5e-5, 1e-4, 5e-5)
     sim = MrAndersonSimulator(gates=gates, CircuitClass=SpyCircuit, parallel=(case["mode"] == "par"))
     np.random.seed(case["seed"])
     pre = state_digest()
